@@ -559,14 +559,17 @@ func init() {
 			if after := snapshot(); after != before {
 				return fmt.Sprintf("font-changed-by-query:%s:%s", before, after)
 			}
-			perGlyph := gnHexNames(gnInstalled(font))
+			// (GlyphName indexes a short Names list of a glyf font out of range: the read-out is
+			// guarded and only compared with itself)
+			read := func() string { return canonPanic(guard(func() string { return gnHexNames(gnInstalled(font)) })) }
+			perGlyph := read()
 			for i := range first {
 				first[i] = fmt.Sprintf("scribble%d", i)
 			}
 			if after := snapshot(); after != before {
 				return fmt.Sprintf("font-shares-memory-with-result:%s:%s", before, after)
 			}
-			if again := gnHexNames(gnInstalled(font)); again != perGlyph {
+			if again := read(); again != perGlyph {
 				return fmt.Sprintf("GlyphName-changed:%s:%s", perGlyph, again)
 			}
 			if again := gnHexNames(font.MakeGlyphNames()); again != want {
